@@ -152,6 +152,19 @@ def gen_c01_sites():
     _order(s7, [r'void\s+PolicyEvaluation<M>::setTolerance\s*\(\s*const\s+double\s+t\s*\)\s*\{\s*if\s*\(\s*t\s*<\s*0\.0\s*\)\s*throw\s+std::invalid_argument',
                 r'tolerance_\s*=\s*t\s*;'], rel7)
     rows.append(('setterSites', 'List String', '["viTolThrowsNeg", "viTolAssign", "viHorizon", "viParam", "peTolThrowsNeg", "peTolAssign"]', rel6, 1))
+    # which reward table each path hands to computeQFunction (Eigen: the model's own; generic: computeImmediateRewards, cached by PE's constructor)
+    sv = E.strip_comments(E.read('include/AIToolbox/MDP/Algorithms/ValueIteration.hpp'))
+    irpat = r'const\s+auto\s*&\s*ir\s*=\s*\[&\]\s*\{\s*if\s+constexpr\s*\(\s*IsModelEigen<M>\s*\)\s*return\s+model\.getRewardFunction\(\)\s*;\s*else\s+return\s+computeImmediateRewards\s*\(\s*model\s*\)\s*;\s*\}\s*\(\)\s*;'
+    E.find1(irpat, sv, 'ValueIteration ir selection')
+    sl = E.strip_comments(E.read('include/AIToolbox/MDP/Algorithms/LinearProgramming.hpp'))
+    E.find1(irpat, sl, 'LinearProgramming ir selection')
+    sp = E.strip_comments(E.read('include/AIToolbox/MDP/Algorithms/Utils/PolicyEvaluation.hpp'))
+    _order(sp, [r'if\s+constexpr\s*\(\s*!IsModelEigen<M>\s*\)\s*immediateRewards_\s*=\s*computeImmediateRewards\s*\(\s*m\s*\)\s*;',
+                r'const\s+auto\s+p\s*=\s*policy\.getPolicy\(\)\s*;',
+                r'if\s+constexpr\s*\(\s*IsModelEigen<M>\s*\)\s*q\s*=\s*computeQFunction\s*\(\s*model_\s*,\s*v1_\s*,\s*model_\.getRewardFunction\(\)\s*\)\s*;',
+                r'else\s+q\s*=\s*computeQFunction\s*\(\s*model_\s*,\s*v1_\s*,\s*immediateRewards_\s*\)\s*;',
+                r'for\s*\(\s*size_t\s+s\s*=\s*0\s*;\s*s\s*<\s*S\s*;\s*\+\+s\s*\)\s*v1_\(s\)\s*=\s*q\.row\(s\)\s*\*\s*p\.row\(s\)\.transpose\(\)\s*;'], 'PolicyEvaluation reward tables')
+    rows.append(('rewardTableSites', 'List String', '["viIrSelect", "lpIrSelect", "peCtorCachesIr", "pePolicyOnce", "peEigenR", "peGenericIr", "peDotAllStates"]', rel7, 1))
     rel = 'include/AIToolbox/MDP/Algorithms/PolicyIteration.hpp'
     s = E.strip_comments(E.read(rel))
     body = s[s.index('PolicyIteration::operator()'):]
